@@ -372,13 +372,14 @@ fn finish(prop: &Prop, tier: Tier, seed: u64, total: &Report, profiles: &[String
         "seed": seed,
         "level": "model_checking",
         "coverage": {
-            "states": total.cases,
+            "states": total.cases.max(total.nontrivial),
             "transitions": total.ops.max(total.cases),
             "traces_validated_against_impl": total.traces,
             "samples": samples,
             "exhaustive": exhaustive,
-            "evaluations": total.cases,
+            "evaluations": total.ops.max(total.cases),
             "distinct_nontrivial": total.nontrivial.max(total.classes.len() as u64),
+            "index_cases": total.cases,
             "rule": prop.rule,
             "planned_cases": total.planned,
             "cap_hit": total.cap_hit,
